@@ -150,6 +150,25 @@ def judge(kind, ref_rc, ref_obs, before_obs, rc, obs, err, killed=False):
     return (f"{kind}: repository differs from plain git in {diff} (rc {rc} vs git {ref_rc}; untouched={untouched})")
 
 
+def _read_argv_log(logf):
+    """argv log of the fault hook: one JSON array per call.  Background children of git-ai append to the same
+    file, so be tolerant of two records sharing a line."""
+    out = []
+    if not os.path.exists(logf):
+        return out
+    dec = json.JSONDecoder()
+    for l in open(logf, errors="replace"):
+        l = l.strip()
+        while l:
+            try:
+                v, end = dec.raw_decode(l)
+            except ValueError:
+                break
+            out.append(v)
+            l = l[end:].lstrip()
+    return out
+
+
 def scenario(args):
     base, seed, (cname, argv), opts = args
     r = C.Rng(seed).fork("c07-" + cname)
@@ -168,8 +187,8 @@ def scenario(args):
         cnt = clone_state(master, base, f"cnt-{cname}")
         logf = os.path.join(cnt.base, "argv.log")
         rc0, out0, err0 = cnt.git(*argv, env_extra=dict(env, GIT_AI_VERIF_ARGV_LOG=logf))
-        n = sum(1 for _ in open(logf)) if os.path.exists(logf) else 0
-        call_argv = [json.loads(l) for l in open(logf)] if os.path.exists(logf) else []
+        call_argv = _read_argv_log(logf)
+        n = len(call_argv)
         stats["internal_calls"] = n
         obs0 = observe(cnt)
         j = judge("no fault", ref_rc, ref_obs, before, rc0, obs0, err0)
